@@ -9,6 +9,7 @@ continues the history on the same directory and is compared with (a) the referen
 the two outcomes the property allows (applied / not applied) and (b) the DirFs model.
 """
 import collections
+import itertools
 import json
 import os
 import random
@@ -169,25 +170,35 @@ def check(ctx):
             raise C.Infra("strace unavailable: %r" % probe)
         # ---- durable before visible, read off the system calls of one undisturbed call: everything written to the temporary file,
         #      then fsync of it, and only then the rename that makes the name visible
-        tf = os.path.join(scratch, "order.trace")
-        order_ops = ["newfs", "mkdir d1", "atomic d1 a %s" % hexdata(random.Random(ctx.seed), 5000)]
-        strace_child(order_ops, scratch, trace_file=tf)
-        recs = [(m.group(1), m.group(2)) for m in (REC.match(l) for l in open(tf)) if m]
-        os.remove(tf)
-        shutil.rmtree(os.path.join(scratch, "fsroot-dir"), ignore_errors=True)
-        st = max(i for i, r in enumerate(recs) if r[0] == "openat" and ".tmp\"" in r[1])
-        seq = [r[0] for r in recs[st:]]
-        seq = seq[: seq.index("close") + 1] if "close" in seq else seq      # the call ends with the deferred close of the temporary file
-        stats["syscall_order_checks"] += 1
-        i_ren = seq.index("renameat") if "renameat" in seq else None
-        i_fs = seq.index("fsync") if "fsync" in seq else None
-        last_w = max((i for i, n in enumerate(seq) if n == "write"), default=None)
-        if (i_ren is None or i_fs is None or last_w is None or not (last_w < i_fs < i_ren)) and not found:
-            found = True
-            stats["spec_failures"] += 1
-            ctx.violation("counterexample", "AtomicCreate: the data is not flushed before the name becomes visible (order of the system calls of one call)",
-                          {"proto": "fs-syscall-order", "ops": order_ops[:2] + ["atomic d1 a <5000 bytes>"]},
-                          expected="openat(tmp) … write … fsync(tmp) … renameat(tmp, d1/a)", observed=seq[:12])
+        #      — for small data, and for data beyond every chunk size an implementation might flush at (1 MiB and more, exact multiples of
+        #      2^20 and not): the LAST write to the temporary file precedes an fsync, which precedes the rename
+        order_sizes = [5000, 0, (1 << 20) + 1, (1 << 20) + (1 << 19)] if ctx.tier == "quick" else [5000, 0, 1, 4096, (1 << 20) - 1, 1 << 20, (1 << 20) + 1, (1 << 20) + (1 << 19), 2 << 20, (5 << 20) + 12345]
+        for osz in order_sizes:
+            tf = os.path.join(scratch, "order.trace")
+            order_ops = ["newfs", "mkdir d1", "atomic d1 a %s" % hexdata(random.Random(ctx.seed + osz), osz)]
+            orep, _ = strace_child(order_ops, scratch, trace_file=tf)
+            if orep[-1] != "ok":
+                raise C.Infra("syscall-order scenario: AtomicCreate of %d bytes answered %r" % (osz, orep[-1][:80]))
+            recs = [(m.group(1), m.group(2)) for m in (REC.match(l) for l in open(tf)) if m]
+            os.remove(tf)
+            shutil.rmtree(os.path.join(scratch, "fsroot-dir"), ignore_errors=True)
+            st = max(i for i, r in enumerate(recs) if r[0] == "openat" and ".tmp\"" in r[1])
+            seq = [r[0] for r in recs[st:]]
+            seq = seq[: seq.index("close") + 1] if "close" in seq else seq      # the call ends with the deferred close of the temporary file
+            stats["syscall_order_checks"] += 1
+            i_ren = seq.index("renameat") if "renameat" in seq else None
+            before = seq[:i_ren] if i_ren is not None else seq
+            i_fs = max((i for i, n in enumerate(before) if n == "fsync"), default=None)       # the last flush before the name is visible
+            last_w = max((i for i, n in enumerate(before) if n == "write"), default=None)
+            written_after = i_ren is not None and "write" in seq[i_ren:]
+            ok_order = i_ren is not None and not written_after and (last_w is None and osz == 0 or (last_w is not None and i_fs is not None and last_w < i_fs))
+            if not ok_order and not found:
+                found = True
+                stats["spec_failures"] += 1
+                short = [k for k, g in itertools.groupby(seq)]
+                ctx.violation("counterexample", "AtomicCreate: the data is not flushed before the name becomes visible (order of the system calls of one call)",
+                              {"proto": "fs-syscall-order", "ops": order_ops[:2] + ["atomic d1 a <%d bytes>" % osz], "size": osz},
+                              expected="openat(tmp) … write … fsync(tmp) … renameat(tmp, d1/a): no write after the last fsync", observed={"calls": seq[-14:], "runs_collapsed": short[:30]})
         for sc in scs:
             res = run_scenario(sc, scratch)
             if res is None:
